@@ -620,6 +620,11 @@ def run(ctx, report):
     from .c03 import string_trip_rule
     string_trip_rule(ctx, R11, X)
 
+    # ---------------------------------------------------------------- D12 far jump / call in AT&T syntax (shared with C09.D8)
+    R12 = report.rule('C02.D12', 'AT&T `ljmp $seg, $off` / `lcall $seg, $off`: the operands reach the EA / 9A rows as offset, segment (mnemo_from_att evaluated on the operand list parse_args delivers)', floor=2)
+    from .c09 import far_order_rule
+    far_order_rule(ctx, R12)
+
     # ---------------------------------------------------------------- D10 condition-code spellings
     R10 = report.rule('C02.D10', 'every spelling the assembler accepts for a condition code (cond_list, all aliases of jcc / setcc / cmovcc) is an IA-32 spelling of that very code', floor=16)
     from ..irsets import load_cc_ref
